@@ -384,4 +384,55 @@ def outs (s : State) : List Ev → List Out
 
 def init : State := {}
 
+/-! ### results that arrive after their worker's address was taken over
+
+`workers` is keyed by ADDRESS.  When a peer connects under an address whose
+previous worker still holds a job (the peer handler announces the new
+connection while the old worker is still noticing the disconnect), `stepPeer`
+overwrites the entry: the job stays in flight at a worker the bookkeeping no
+longer knows (`lost`).  That worker still delivers its one result; the result
+carries the job itself and the ADDRESS of its peer, so the result arm does
+`workers[addr].activeJob = nil` on the entry of the address's CURRENT worker
+(whatever it holds stays in flight, now unknown to the bookkeeping as well) and
+then treats the carried job exactly as in `stepResult`.  `swapIn` is that
+re-association, `late p idx e` the event. -/
+
+/-- the result arm's view when the old worker of address `p` reports the lost job `idx`: the entry of `p` is made to
+carry that job; what it carried before (if anything) is in flight without the bookkeeping knowing -/
+def swapIn (s : State) (w : Worker) (job : Job) : State :=
+  { s with workers := setW s.workers { w with active := some job },
+           lost := w.active.toList ++ s.lost.filter (fun j => j.idx != job.idx) }
+
+def stepLateResult (s : State) (p idx : Nat) (e : Err) : State × List Out :=
+  match s.lost.find? (fun j => j.idx == idx) with
+  | none => (s, [.ignored])
+  | some job =>
+    match findW s.workers p with
+    | none => (s, [.ignored])        -- Go: `workers[addr]` is nil here (the entry was pruned): not driven, see DESIGN §11
+    | some w => stepResult (swapIn s w job) p e
+
+/-- dispatcher events including late results -/
+inductive Ev2 where
+  | base (e : Ev)
+  | late (p idx : Nat) (e : Err)
+deriving DecidableEq, Repr
+
+def step2 (s : State) : Ev2 → State × List Out
+  | .base e => step s e
+  | .late p idx e => if s.quit || offering s then (s, [.ignored]) else stepLateResult s p idx e
+
+def run2 (s : State) : List Ev2 → State
+  | [] => s
+  | e :: es => run2 (step2 s e).1 es
+
+/-- The rejected variant (seeded regression C12g-1): the peer-connected arm pushes the overwritten worker's job back
+onto the heap at once — while that worker still holds it and still owes its result. -/
+def stepPeerRequeue (s : State) (p : Nat) : State × List Out :=
+  match findW s.workers p with
+  | some w =>
+    (match w.active with
+     | some j => ({ (stepPeer s p).1 with work := insertJob j (stepPeer s p).1.work }, [])
+     | none => stepPeer s p)
+  | none => stepPeer s p
+
 end Neutrino.Disp
